@@ -1,6 +1,7 @@
 package main
 
 import (
+	"strconv"
 	"encoding/json"
 	"fmt"
 	"go/ast"
@@ -378,6 +379,38 @@ func (p *Program) ruleCircleConvention(c *Check) {
 			}
 			circles := out.in.called("NewCircle")
 			if len(circles) == 0 {
+				// completeness: a point feature that carries the convention must be read back as a Circle,
+				// whatever the representation options are (only DisableCircleType may turn this off)
+				holds := func(sub ...string) (bool, bool) {
+					for _, b := range n.bools {
+						all := true
+						for _, s := range sub {
+							if !strings.Contains(b, s) {
+								all = false
+							}
+						}
+						if all {
+							return a.B(b), true
+						}
+					}
+					return false, false
+				}
+				isP, _ := holds("is(geojson.Parse(", "*geojson.Point)")
+				isS, _ := holds("is(geojson.Parse(", "*geojson.SimplePoint)")
+				if isP && isS {
+					return "" // infeasible
+				}
+				noErr, hasErr := holds("isnil(geojson.Parse(", "#1)")
+				exists, hasExists := holds("Exists(p0.rGeometry)")
+				noMembers, _ := holds(`""==p0.members`)
+				isCircle, _ := holds(`"Circle"==`, "properties.type")
+				uEmpty, _ := holds(`""==`, "radius_units")
+				uM, _ := holds(`"m"==`, "radius_units")
+				uKm, _ := holds(`"km"==`, "radius_units")
+				disabled, _ := holds("DisableCircleType")
+				if (isP || isS) && (!hasErr || noErr) && (!hasExists || exists) && !noMembers && isCircle && (uEmpty || uM || uKm) && !disabled {
+					return fmt.Sprintf("a feature whose geometry is a point (Point=%v, SimplePoint=%v) and whose properties carry the Circle convention is not read back as a Circle: the writer's output would not round-trip, and the meaning would depend on parse options", isP, isS)
+				}
 				return ""
 			}
 			got := map[string]bool{}
@@ -466,7 +499,60 @@ func (p *Program) ruleFeatureProperties(c *Check) {
 			}
 		}
 	}
-	c.Expect(n >= 2, "E6.props", "(*geojson.extra).appendJSONExtra#default", p.declPos(ex), "the default properties member is written both when there are no members and when the members lack one", "the default \"properties\":{} is not written on every path where the member is absent")
+	c.Expect(n >= 1, "E6.props", "(*geojson.extra).appendJSONExtra#default", p.declPos(ex), "the default properties member is written by the member writer", "the default \"properties\":{} is never written")
+	// the decision, run for every combination of (no extra block, no members, propertiesRequired, members hold a top-level "properties")
+	before := len(c.Obs)
+	p.runE8(c, &e8row{id: "(*geojson.extra).appendJSONExtra#decision", fn: ex,
+		what: "the default \"properties\":{} is appended exactly when a properties member is required and the stored members do not hold one at their top level (gjson.Get(members, \"properties\")); nothing else (the destination buffer, nested keys) takes part in the decision",
+		spec: func(a *e8assign, n *e8names, out *e8out) string {
+			var lookup, req string
+			var others []string
+			for _, b := range n.bools {
+				switch {
+				case strings.Contains(b, "gjson.Get(recv.members,") && strings.Contains(b, "properties"):
+					lookup = b
+				case b == "p1":
+					req = b
+				case strings.HasPrefix(b, "isnil(") || strings.Contains(b, "==recv.members") || strings.Contains(b, "recv.members=="):
+				default:
+					others = append(others, b)
+				}
+			}
+			if req == "" {
+				return "propertiesRequired is never consulted"
+			}
+			if len(others) > 0 {
+				return "the decision consults " + others[0] + ": whether a Feature gets the default properties member must depend only on a top-level lookup of its own members"
+			}
+			appended := 0
+			for _, cl := range out.in.called("append") {
+				if len(cl.args) >= 2 && cl.args[1] != nil && cl.args[1].str {
+					if u, err := strconv.Unquote(cl.args[1].name); err == nil && strings.Contains(u, `"properties":{}`) {
+						appended++
+					}
+				}
+			}
+			hasMembers := true
+			for _, b := range n.bools {
+				if strings.HasPrefix(b, "isnil(recv") && a.B(b) {
+					hasMembers = false
+				}
+				if (strings.Contains(b, "==recv.members") || strings.Contains(b, "recv.members==")) && a.B(b) {
+					hasMembers = false
+				}
+			}
+			if hasMembers && lookup == "" && a.B(req) {
+				return "with members present, their top-level properties member is not looked up"
+			}
+			want := a.B(req) && !(hasMembers && lookup != "" && a.B(lookup))
+			if want != (appended == 1) || appended > 1 {
+				return fmt.Sprintf("the default is appended %d times when required=%v, members present=%v, members hold properties=%v", appended, a.B(req), hasMembers, lookup != "" && a.B(lookup))
+			}
+			return ""
+		}})
+	for _, o := range c.Obs[before:] {
+		o.Rule = "E6.props"
+	}
 }
 
 // constBytesOf: the bytes of a variadic literal append(dst, 'a', 'b'): a slice
